@@ -13,7 +13,8 @@ from flowmark.linewrapping.tag_handling import (
 from flowmark.linewrapping.text_filling import DEFAULT_WRAP_WIDTH
 from flowmark.linewrapping.text_wrapping import (
     DEFAULT_LEN_FUNCTION,
-    markdown_escape_first_line,
+    markdown_escape_first_word,
+    markdown_first_line_is_rule,
     wrap_paragraph,
     wrap_paragraph_lines,
 )
@@ -162,8 +163,9 @@ def line_wrap_by_sentence(
 
             first_line = False
 
-        if is_markdown:
-            markdown_escape_first_line(lines)
+        if is_markdown and markdown_first_line_is_rule(lines):
+            # Wrap again so that the escaped word is laid out with its real width.
+            return line_wrapper(markdown_escape_first_word(text), initial_indent, subsequent_indent)
 
         # Now insert the indents and assemble the paragraph.
         if initial_indent and len(lines) > 0:
